@@ -17,13 +17,11 @@ Definition stat_used (c : cfg) : bool :=
   existsb (fun e => match c_statreq c e with Some _ => true | None => false end) (c_exts c).
 
 (* no Stat fault on a file when some FileRequired consults api.Stat() (the loss is then per extractor); and, when
-   filesystem errors are fatal, none of the two non-traversal fault sites that then abort the walk: an unreadable
-   .gitignore under UseGitignore, a lazy-stat fault under a size limit *)
+   filesystem errors are fatal, no lazy-stat fault under a size limit (whether it is reached depends on FileRequired) *)
 Fixpoint tree_quiet (c : cfg) (nd : node) : bool :=
   match nd with
   | File _ _ _ _ ff => negb (ff_stat ff && (stat_used c || (c_fatal c && (0 <? c_max_size c)%Z)))
   | Dir _ ch _ =>
-      (negb (c_gitignore c && c_fatal c) || gi_child_ok ch) &&
       (fix go (l : list node) : bool := match l with [] => true | c1 :: l' => tree_quiet c c1 && go l' end) ch
   end.
 
@@ -39,9 +37,19 @@ Fixpoint gi_readable (c : cfg) (nd : node) : bool :=
 
 Definition is_fserr (h : hcall) : bool := let '(HC _ _ _ b) := h in b.
 
-(* some directory the walk enters cannot be opened or fails while being listed, or the root cannot be stat'ed *)
+(* a directory the walk enters whose .gitignore cannot be read, filesystem errors being fatal *)
+Definition gi_err_call (c : cfg) (h : hcall) : bool :=
+  match h with
+  | HC ms p (Dir _ ch _) false => match dir_decision c ms p ch with DGiErr => true | _ => false end
+  | _ => false
+  end.
+
+Definition abort_site (c : cfg) (h : hcall) : bool := is_fserr h || gi_err_call c h.
+
+(* some directory the walk enters cannot be opened, fails while being listed, or holds an unreadable .gitignore
+   (UseGitignore); or the root cannot be stat'ed *)
 Definition traversal_fault (c : cfg) (t : node) : bool :=
-  node_stat_fails t || existsb is_fserr (schedule c [] [DOT] t).
+  node_stat_fails t || existsb (abort_site c) (schedule c [] [DOT] t).
 
 (* the tree with every fault annotation removed *)
 Fixpoint erase_faults (nd : node) : node :=
